@@ -1,5 +1,464 @@
+// C25 (tree part), also run by C30: ics23 membership / non-membership proofs on the tree states
+// the behaviours of spec/VersionedTree.tla produce. The expected verdict of every case class is
+// the one spec/MerkleProof.tla states for its abstract trees (TreeSound / TreeComplete):
+//
+//	honest membership proof of (k, v in the version)        -> accepted for (k, v) only
+//	honest non-membership proof of an absent k              -> accepted for k (and keys of the same gap) only
+//	every single-field mutation (key, value, a path step, a neighbour, the root) -> rejected
+//
+// A proof accepted for a claim that is false in the version is a soundness violation, an honest
+// proof that is rejected (or cannot be produced) a completeness violation.
 package main
 
-import "verifharness/mbt"
+import (
+	"bytes"
+	"fmt"
+	"runtime"
+	"sync"
 
-func runProofs(f *mbt.Flags, cfg *config, behs [][]mbt.Step) {}
+	ics23 "github.com/cosmos/ics23/go"
+
+	"verifharness/mbt"
+)
+
+type pstats struct {
+	states, member, nonmember, mutations, bitflips, skippedEmpty int64
+}
+
+func cloneProof(p *ics23.CommitmentProof) *ics23.CommitmentProof {
+	bz, err := p.Marshal()
+	if err != nil {
+		panic(err)
+	}
+	q := &ics23.CommitmentProof{}
+	if err := q.Unmarshal(bz); err != nil {
+		panic(err)
+	}
+	return q
+}
+
+func verM(spec *ics23.ProofSpec, root []byte, p *ics23.CommitmentProof, k, v []byte) (ok bool) {
+	if pan, _, _ := mbt.Guard(func() { ok = ics23.VerifyMembership(spec, root, p, k, v) }); pan {
+		return false // a panic is reported separately by the caller when it matters
+	}
+	return ok
+}
+
+func verN(spec *ics23.ProofSpec, root []byte, p *ics23.CommitmentProof, k []byte) (ok bool) {
+	if pan, _, _ := mbt.Guard(func() { ok = ics23.VerifyNonMembership(spec, root, p, k) }); pan {
+		return false
+	}
+	return ok
+}
+
+func flip(b []byte, bit int) []byte {
+	c := append([]byte(nil), b...)
+	c[bit/8] ^= 1 << uint(bit%8)
+	return c
+}
+
+// probeState: proofs against reader r (a committed version with contents w and root hash root).
+func (e *env) probeState(act string, r reader, root []byte, w []int, who string, ps *pstats) *failure {
+	spec := e.t.Spec()
+	p := present(w)
+	ps.states++
+	hasEmpty := func(k int) bool { return k > 0 && len(e.vals[w[k-1]]) == 0 }
+	otherRoot := flip(root, e.rng.Intn(len(root)*8))
+	for n := 0; n < e.cfg.Proofs; n++ {
+		// ---------------- membership
+		if len(p) > 0 {
+			k := p[e.rng.Intn(len(p))]
+			if n == 0 {
+				k = p[0]
+			} else if n == 1 {
+				k = p[len(p)-1]
+			}
+			key, val := e.keys[k], e.vals[w[k-1]]
+			proof, err := r.Member(key)
+			if err != nil {
+				return e.fail(act, "member:complete", fmt.Sprintf("%s: no membership proof for the present key %q: %v", who, key, err))
+			}
+			if hasEmpty(k) {
+				ps.skippedEmpty++ // documented: ics23 cannot verify empty values
+			} else {
+				ps.member++
+				if !verM(spec, root, proof, key, val) {
+					return e.fail(act, "member:complete", fmt.Sprintf("%s: the membership proof of (%q, value id %d) does not verify against the version's root %x", who, key, w[k-1], root))
+				}
+				if !verM(spec, root, cloneProof(proof), key, val) {
+					return e.fail(act, "member:complete", fmt.Sprintf("%s: the membership proof of %q does not verify after a marshal / unmarshal round trip", who, key))
+				}
+				bad := func(class string, ok bool) *failure {
+					ps.mutations++
+					if ok {
+						return e.fail(act, "member:sound:"+class, fmt.Sprintf("%s: membership proof of (%q, value id %d) is accepted with %s", who, key, w[k-1], class))
+					}
+					return nil
+				}
+				for vi := 1; vi < len(e.vals); vi++ {
+					if vi != w[k-1] {
+						if f := bad(fmt.Sprintf("another value (id %d)", vi), verM(spec, root, proof, key, e.vals[vi])); f != nil {
+							return f
+						}
+					}
+				}
+				if f := bad("the value extended by one byte", verM(spec, root, proof, key, append(append([]byte{}, val...), 0))); f != nil {
+					return f
+				}
+				ok2 := 1 + e.rng.Intn(e.cfg.NK)
+				if ok2 != k {
+					if f := bad(fmt.Sprintf("another key (%q)", e.keys[ok2]), verM(spec, root, proof, e.keys[ok2], val)); f != nil {
+						return f
+					}
+				}
+				if f := bad("another root", verM(spec, otherRoot, proof, key, val)); f != nil {
+					return f
+				}
+				if f := bad("a non-membership check of the same key", verN(spec, root, proof, key)); f != nil {
+					return f
+				}
+				// the claim inside the proof altered
+				q := cloneProof(proof)
+				q.GetExist().Value = e.vals[w[k-1]%e.cfg.NV+1]
+				if !bytes.Equal(q.GetExist().Value, val) {
+					if f := bad("the value inside the proof replaced (claim: that value)", verM(spec, root, q, key, q.GetExist().Value)); f != nil {
+						return f
+					}
+				}
+				// every path step: one bit of its prefix or suffix
+				path := proof.GetExist().Path
+				for i := range path {
+					q := cloneProof(proof)
+					op := q.GetExist().Path[i]
+					if len(op.Suffix) > 0 && e.rng.Intn(2) == 0 {
+						op.Suffix = flip(op.Suffix, e.rng.Intn(len(op.Suffix)*8))
+					} else {
+						op.Prefix = flip(op.Prefix, e.rng.Intn(len(op.Prefix)*8))
+					}
+					if f := bad(fmt.Sprintf("one bit of path step %d flipped", i), verM(spec, root, q, key, val)); f != nil {
+						return f
+					}
+				}
+				if len(path) > 0 {
+					q := cloneProof(proof)
+					i := e.rng.Intn(len(path))
+					q.GetExist().Path = append(q.GetExist().Path[:i], q.GetExist().Path[i+1:]...)
+					if f := bad(fmt.Sprintf("path step %d dropped", i), verM(spec, root, q, key, val)); f != nil {
+						return f
+					}
+					q = cloneProof(proof)
+					q.GetExist().Path = append(q.GetExist().Path, q.GetExist().Path[len(path)-1])
+					if f := bad("the last path step repeated", verM(spec, root, q, key, val)); f != nil {
+						return f
+					}
+				}
+				q = cloneProof(proof)
+				if lp := q.GetExist().Leaf.Prefix; len(lp) > 0 {
+					q.GetExist().Leaf.Prefix = flip(lp, 0)
+				} else {
+					q.GetExist().Leaf.Prefix = []byte{5}
+				}
+				if f := bad("the leaf prefix altered", verM(spec, root, q, key, val)); f != nil {
+					return f
+				}
+				// single-bit flips of the marshalled proof (thorough)
+				if f := e.bitflips(act, who, spec, root, proof, key, val, true, ps); f != nil {
+					return f
+				}
+			}
+			// a non-membership proof for a present key must not be produced
+			if np, err := r.NonMember(key); err == nil && verN(spec, root, np, key) {
+				return e.fail(act, "nonmember:sound:present-key", fmt.Sprintf("%s: a non-membership proof for the present key %q is produced and verifies", who, key))
+			}
+		}
+		// ---------------- non-membership
+		var absent []int
+		for k := 1; k <= e.cfg.NK; k++ {
+			if w[k-1] == 0 {
+				absent = append(absent, k)
+			}
+		}
+		if len(absent) == 0 || len(p) == 0 {
+			continue
+		}
+		k := absent[e.rng.Intn(len(absent))]
+		switch n {
+		case 0:
+			k = absent[0] // before the first key, if any
+		case 1:
+			k = absent[len(absent)-1] // after the last
+		}
+		key := e.keys[k]
+		i := rank(p, k) // p[i-1] < k < p[i]
+		left, right := 0, 0
+		if i > 0 {
+			left = p[i-1]
+		}
+		if i < len(p) {
+			right = p[i]
+		}
+		proof, err := r.NonMember(key)
+		if err != nil {
+			return e.fail(act, "nonmember:complete", fmt.Sprintf("%s: no non-membership proof for the absent key %q: %v", who, key, err))
+		}
+		if mp, err := r.Member(key); err == nil && mp.GetExist() != nil && verM(spec, root, mp, key, mp.GetExist().Value) {
+			return e.fail(act, "member:sound:absent-key", fmt.Sprintf("%s: a membership proof for the absent key %q is produced and verifies", who, key))
+		}
+		if hasEmpty(left) || hasEmpty(right) {
+			ps.skippedEmpty++
+			continue
+		}
+		ps.nonmember++
+		if !verN(spec, root, proof, key) {
+			return e.fail(act, "nonmember:complete", fmt.Sprintf("%s: the non-membership proof of %q (between keys %d and %d of the version; 0 = none) does not verify against the root %x", who, key, left, right, root))
+		}
+		if !verN(spec, root, cloneProof(proof), key) {
+			return e.fail(act, "nonmember:complete", fmt.Sprintf("%s: the non-membership proof of %q does not verify after a marshal / unmarshal round trip", who, key))
+		}
+		bad := func(class string, ok bool) *failure {
+			ps.mutations++
+			if ok {
+				return e.fail(act, "nonmember:sound:"+class, fmt.Sprintf("%s: non-membership proof of %q (gap between keys %d and %d) is accepted with %s", who, key, left, right, class))
+			}
+			return nil
+		}
+		// the proof shows absence for the keys of its gap only
+		for _, o := range []int{left, right, left - 1, right + 1, 1 + e.rng.Intn(e.cfg.NK)} {
+			if o < 1 || o > e.cfg.NK {
+				continue
+			}
+			inGap := (left == 0 || o > left) && (right == 0 || o < right)
+			got := verN(spec, root, proof, e.keys[o])
+			if !inGap {
+				if f := bad(fmt.Sprintf("key %d (%q), which is outside the gap", o, e.keys[o]), got); f != nil {
+					return f
+				}
+			} else if !got {
+				return e.fail(act, "nonmember:complete", fmt.Sprintf("%s: the gap proof between keys %d and %d does not verify for key %d inside the gap", who, left, right, o))
+			}
+		}
+		if f := bad("another root", verN(spec, otherRoot, proof, key)); f != nil {
+			return f
+		}
+		if f := bad("a membership check", verM(spec, root, proof, key, e.vals[e.cfg.NV])); f != nil {
+			return f
+		}
+		ne := proof.GetNonexist()
+		// wrong neighbour: the left (right) neighbour replaced by the key before (after) it: the gap would hide a present key
+		if i > 1 {
+			if lp, err := r.Member(e.keys[p[i-2]]); err == nil && !hasEmpty(p[i-2]) {
+				q := cloneProof(proof)
+				q.GetNonexist().Left = cloneProof(lp).GetExist()
+				if f := bad("the left neighbour replaced by the key before it", verN(spec, root, q, key)); f != nil {
+					return f
+				}
+			}
+		}
+		if i+1 < len(p) {
+			if rp, err := r.Member(e.keys[p[i+1]]); err == nil && !hasEmpty(p[i+1]) {
+				q := cloneProof(proof)
+				q.GetNonexist().Right = cloneProof(rp).GetExist()
+				if f := bad("the right neighbour replaced by the key after it", verN(spec, root, q, key)); f != nil {
+					return f
+				}
+			}
+		}
+		if ne.Left != nil && ne.Right != nil {
+			q := cloneProof(proof)
+			q.GetNonexist().Left = nil
+			if f := bad("the left neighbour dropped", verN(spec, root, q, key)); f != nil {
+				return f
+			}
+			q = cloneProof(proof)
+			q.GetNonexist().Right = nil
+			if f := bad("the right neighbour dropped", verN(spec, root, q, key)); f != nil {
+				return f
+			}
+			q = cloneProof(proof)
+			q.GetNonexist().Left, q.GetNonexist().Right = q.GetNonexist().Right, q.GetNonexist().Left
+			if f := bad("the neighbours swapped", verN(spec, root, q, key)); f != nil {
+				return f
+			}
+		}
+		for side, ex := range []*ics23.ExistenceProof{ne.Left, ne.Right} {
+			if ex == nil || len(ex.Path) == 0 {
+				continue
+			}
+			q := cloneProof(proof)
+			qe := q.GetNonexist().Left
+			if side == 1 {
+				qe = q.GetNonexist().Right
+			}
+			j := e.rng.Intn(len(qe.Path))
+			op := qe.Path[j]
+			if len(op.Suffix) > 0 && e.rng.Intn(2) == 0 {
+				op.Suffix = flip(op.Suffix, e.rng.Intn(len(op.Suffix)*8))
+			} else {
+				op.Prefix = flip(op.Prefix, e.rng.Intn(len(op.Prefix)*8))
+			}
+			if f := bad(fmt.Sprintf("one bit of path step %d of neighbour %d flipped", j, side), verN(spec, root, q, key)); f != nil {
+				return f
+			}
+			q = cloneProof(proof)
+			qe = q.GetNonexist().Left
+			if side == 1 {
+				qe = q.GetNonexist().Right
+			}
+			qe.Value = append(append([]byte{}, qe.Value...), 1)
+			if f := bad(fmt.Sprintf("the value of neighbour %d altered", side), verN(spec, root, q, key)); f != nil {
+				return f
+			}
+		}
+		if f := e.bitflips(act, who, spec, root, proof, key, nil, false, ps); f != nil {
+			return f
+		}
+	}
+	return nil
+}
+
+// bitflips: single-bit mutations of the marshalled proof. A flipped proof that decodes to the
+// same proof (ignoring the NonExistenceProof.Key field, which ics23 does not read) is no
+// mutation; every other one must be rejected.
+func (e *env) bitflips(act, who string, spec *ics23.ProofSpec, root []byte, proof *ics23.CommitmentProof, key, val []byte, member bool, ps *pstats) *failure {
+	if e.cfg.BitFlips == 0 {
+		return nil
+	}
+	bz, err := proof.Marshal()
+	if err != nil {
+		return nil
+	}
+	norm := func(p *ics23.CommitmentProof) []byte {
+		c := cloneProof(p)
+		if ne := c.GetNonexist(); ne != nil {
+			ne.Key = nil
+		}
+		out, _ := c.Marshal()
+		return out
+	}
+	ref := norm(proof)
+	for n := 0; n < e.cfg.BitFlips; n++ {
+		fb := flip(bz, e.rng.Intn(len(bz)*8))
+		q := &ics23.CommitmentProof{}
+		var uerr error
+		if pan, _, _ := mbt.Guard(func() { uerr = q.Unmarshal(fb) }); pan || uerr != nil {
+			continue
+		}
+		same := false
+		mbt.Guard(func() { same = bytes.Equal(norm(q), ref) })
+		if same {
+			continue
+		}
+		ps.bitflips++
+		var ok bool
+		if member {
+			ok = verM(spec, root, q, key, val)
+		} else {
+			ok = verN(spec, root, q, key)
+		}
+		if ok {
+			return e.fail(act, "bitflip", fmt.Sprintf("%s: the proof for %q with one bit of its encoding flipped (%x -> %x) decodes to a different proof that is still accepted", who, key, bz, fb))
+		}
+	}
+	return nil
+}
+
+func runProofs(f *mbt.Flags, cfg *config, behs [][]mbt.Step) {
+	cfg.NoEmpty = true
+	if cfg.Proofs == 0 {
+		cfg.Proofs = 3
+	}
+	var mu sync.Mutex
+	reported := map[string]int{}
+	var total pstats
+	var replays, okc, steps, flaky int64
+	var wg sync.WaitGroup
+	nw := runtime.NumCPU()
+	for w := 0; w < nw; w++ {
+		wg.Add(1)
+		go func(w int) {
+			defer wg.Done()
+			for i := w; i < len(behs); i += nw {
+				for vi, v := range cfg.Variants {
+					seed := f.Seed*1000003 + int64(i)*31 + int64(vi)
+					if cfg.Seed != 0 {
+						seed = cfg.Seed
+					}
+					run := func(ps *pstats) (*failure, *env) {
+						return replay(cfg, v, behs[i], seed, func(e *env, s mbt.Step) *failure {
+							if _, ok := s["sv"].([]any); !ok || len(e.lastSv) == 0 {
+								return nil
+							}
+							st := s["st"].(map[string]any)
+							avail := ints(st["avail"])
+							if len(avail) == 0 {
+								return nil
+							}
+							// the last committed version through the working tree's own proof API ...
+							ver := mbt.Step(st).Int("ver")
+							if ver > 0 {
+								if fl := e.probeState(s.Act(), e.t, e.t.SavedHash(), e.lastSv[ver-1], fmt.Sprintf("committed version %d (through the tree loaded at it)", ver), ps); fl != nil {
+									return fl
+								}
+							}
+							// ... and one retained version through a snapshot
+							v := avail[e.rng.Intn(len(avail))]
+							snap, err := e.t.Snapshot(int64(v))
+							if err != nil {
+								return e.fail(s.Act(), "GetImmutable", fmt.Sprintf("GetImmutable(%d) failed: %v", v, err))
+							}
+							defer snap.Close()
+							return e.probeState(s.Act(), snap, snap.Hash(), e.lastSv[v-1], fmt.Sprintf("version %d (snapshot)", v), ps)
+						})
+					}
+					var ps pstats
+					fl, e := run(&ps)
+					mu.Lock()
+					replays++
+					steps += int64(len(behs[i]))
+					total.states += ps.states
+					total.member += ps.member
+					total.nonmember += ps.nonmember
+					total.mutations += ps.mutations
+					total.bitflips += ps.bitflips
+					total.skippedEmpty += ps.skippedEmpty
+					mu.Unlock()
+					if fl == nil {
+						mu.Lock()
+						okc++
+						mu.Unlock()
+						continue
+					}
+					var ps2 pstats
+					fl2, _ := run(&ps2)
+					if fl2 == nil || fl2.key != fl.key {
+						mu.Lock()
+						flaky++
+						mu.Unlock()
+						mbt.Emit(map[string]any{"kind": "flaky", "variant": v, "first": fl.String(), "second": fl2.String()})
+						continue
+					}
+					mu.Lock()
+					reported[fl.key]++
+					first := reported[fl.key] <= 2
+					mu.Unlock()
+					if first {
+						c := *cfg
+						c.Variants = []variant{e.v}
+						c.Variants[0].Init = false
+						c.Seed = seed
+						mbt.Mismatch(fl.key, fmt.Sprintf("[%s %s, initially cache=%d fast=%v] step %d: %s", cfg.Impl, e.v.DB, e.v.Cache, e.v.Fast, fl.step, fl.what),
+							map[string]any{"cfg": c, "mode": "proofs", "steps": slim(behs[i], fl.step)})
+					}
+				}
+			}
+		}(w)
+	}
+	wg.Wait()
+	for i := 0; i < len(behs) && i < 1; i++ {
+		mbt.Sample(brief(behs[i]))
+	}
+	mbt.Summary(map[string]any{"behaviours": len(behs), "replays": replays, "replays_ok": okc, "steps": steps, "flaky": flaky,
+		"tree_states_probed": total.states, "membership_proofs": total.member, "nonmembership_proofs": total.nonmember,
+		"mutations_rejected": total.mutations, "bitflips_rejected": total.bitflips, "skipped_empty_value": total.skippedEmpty})
+	mbt.Flush()
+}
